@@ -83,6 +83,7 @@ type Exec struct {
 	inInit    bool
 	unsupp    string
 	freshCnt  int
+	known     map[string]bool
 }
 
 type ufApp struct {
@@ -128,6 +129,13 @@ func (ex *Exec) addPC(t *Term) {
 	}
 	ex.pc = append(ex.pc, t)
 	ex.sol.Assert(t)
+	if ex.known == nil {
+		ex.known = map[string]bool{}
+	}
+	ex.known[t.S] = true
+	if rest, ok := strings.CutPrefix(t.S, "(not "); ok {
+		ex.known[rest[:len(rest)-1]] = false
+	}
 }
 
 // branch decides a (possibly symbolic) condition.
@@ -136,6 +144,9 @@ func (ex *Exec) branch(c Value) bool {
 		return b
 	}
 	t := c.(SymBool).T
+	if v, ok := ex.known[t.S]; ok {
+		return v
+	}
 	if ex.pos < len(ex.decisions) {
 		d := ex.decisions[ex.pos]
 		ex.pos++
